@@ -192,7 +192,7 @@ func c18Verifier(t *testing.T) {
 	}
 	distinct := map[string]struct{}{}
 	for kind := range c18LeafKinds {
-		for li, life := range lives {
+		for _, life := range lives {
 			synctest.Test(t, func(*testing.T) {
 				t0 := time.Now().Truncate(time.Second)
 				nb := t0.Add(2 * time.Hour)
@@ -271,7 +271,7 @@ func c18Verifier(t *testing.T) {
 							if accepted {
 								res = "accepted"
 							}
-							distinct[fmt.Sprintf("%d|%d|%s|%d|%s|%s", kind, li, pos.name, mode, chain, res)] = struct{}{}
+							distinct[fmt.Sprintf("%v|%v|%s|%s", broken, boundary, chain, res)] = struct{}{}
 							switch {
 							case accepted && len(broken) > 0:
 								r.Outcome("VIOLATION accepted although: " + broken[0])
@@ -290,7 +290,7 @@ func c18Verifier(t *testing.T) {
 							default:
 								r.Outcome("rejected, chain " + chain + " (statement gives no obligation to accept)")
 							}
-							if len(r.Samples) < 3 && kind+li+mode == len(r.Samples)*3 && chain == "leaf" {
+							if len(r.Samples) < 3 && kind+mode == len(r.Samples)*3 && chain == "leaf" {
 								desc["result"] = fmt.Sprint(got)
 								r.Sample(desc)
 							}
@@ -301,5 +301,5 @@ func c18Verifier(t *testing.T) {
 		}
 	}
 	r.Distinct = int64(len(distinct))
-	r.Note("distinct_nontrivial = distinct (leaf kind, lifetime, instant, hash list, chain, result) tuples")
+	r.Note("distinct_nontrivial = distinct (set of rules the server certificate breaks, exactly-at-a-boundary flag, chain shape, result) classes; evaluations = verifyRawCerts calls")
 }
